@@ -100,6 +100,8 @@ DIRECTED = [
     ('BitArray', '0110' * 4, [['rol', [3, 5, 9]]]),                                           # neighbour
     ('BitStream', '1' * 9, [['insert', [['self'], 3]], ['append', [['self']]], ['prepend', [['self']]], ['iand', [['self']]]]),
     ('BitArray', '10' * 20, [['replace', [['str', '10'], ['self'], None, None, 2, None]]]),
+    ('BitArray', '0000000100000010' * 2, [['byteswap', [[2], None, None, True, 'iter']]]),          # F49: sizes from a one-shot iterable
+    ('BitStream', '0000000100000010' * 3, [['byteswap', [[1, 2], None, None, True, 'gen']]]),
     ('BitArray', '', [['set', [1, None]], ['invert', [None]], ['reverse', [None, None]], ['byteswap', [None, None, None, True]], ['imul', [3]], ['clear', []]]),
 ]
 
